@@ -255,10 +255,12 @@ def gen_multi(rng, n):
         k1, k2 = "%s:%d" % (p1, a1), "%s:%d" % (p2, a2)
         out.append("multi q:%s q:%s q:%s h:%s h:%s i:%s i:%s c:%s:1 h:%s w:%s:%s w:%s:%s i:%s s:%s q:%s q:%s h:%s s:%s q:%s q:%s" % (
             k1, k2, k1, k1, k2, k1, k1, k1, k2, k1, p2, k2, p1, k2, k1, k1, k2, k2, k2, k2, k1))
+        # a connection opened only AFTER its neighbour (one key component away) was torn down must still open, once
+        out.append("multi q:%s h:%s s:%s q:%s q:%s q:%s h:%s s:%s q:%s q:%s" % (k1, k1, k1, k2, k1, k2, k2, k2, k1, k2))
     allk = ["%s:%d" % (p, a) for p in "ABCDE" for a in (99, 355, 25443)]
     for _ in range(n):
         ks = rng.sample(allk, rng.choice([2, 3, 4]))
-        ops = ["q:" + k for k in ks]
+        ops = ["q:" + k for k in ks[:rng.randrange(1, len(ks))]]      # the others are opened later, also after teardowns
         for _ in range(rng.randrange(4, 24)):
             k = rng.choice(ks)
             r = rng.random()
